@@ -1105,6 +1105,11 @@ func (pc *peerConn) runScript(ps *peerStream, script []SOp) {
 			if !pc.waitFor(func() bool { return ps.recvBytes >= int64(op.N) || ps.endStream || ps.rstByClient }) {
 				return
 			}
+		case "read_stall":
+			// the peer stops reading the connection for a while (back-pressure)
+			if t := time.Now().Add(time.Duration(op.Ns)); t.After(pc.readStallTil) {
+				pc.readStallTil = t
+			}
 		case "overrun":
 			if !pc.overrun(ps, op) {
 				return
